@@ -110,4 +110,14 @@ def UniqueOkCat (sch : SchemaEval) (cat : Catalog) : Prop :=
 /-- all stored documents of the catalog are well-formed -/
 def OkCat (cat : Catalog) : Prop := ∀ h c, (h, c) ∈ cat.namespaces → DocsOk c.docs
 
+/-- the invariant of the sequential system -/
+def SysInv (sch : SchemaEval) (s : Sys) : Prop := Inv sch s.catalog s.nextId
+
+/-- a history of driver calls (each with the ObjectIDs observed for it); a failed call leaves
+    the state unchanged -/
+def Sys.run (sch : SchemaEval) (s : Sys) (calls : List (Call × List V)) : Sys :=
+  calls.foldl (fun s co => match Sys.step sch s co.1 co.2 with
+    | .ok (s', _) => s'
+    | .error _ => s) s
+
 end Lungo
